@@ -5,11 +5,13 @@
   (a) undefined-operand propagation of the pure VM opcodes  — over Gen.VmOps, REGENERATED from exec.c
   (b) grammar precedence/associativity = the manual's table — over Gen.Precedence, REGENERATED
   (c) algebra of the specification `Cond.eval`, for all environments
-  (d) compile_correct: code emitted by the grammar actions, run on the VM model, computes `eval` (fragments)
+  (d) compile_correct: code emitted by the grammar actions, run on the VM model, computes `eval` — all constructs, doubles
+      included, for every choice of the double operations (`FloatOps` is a parameter)
   (e) the string operators: sizedstr.c (Gen.SizedStr, REGENERATED) = the byte-list specification, for all byte lists
   (f) the match-list opcodes: exec.c (Gen.MatchOps, REGENERATED) = what the VM model computes on (offset, length) views
   (g) sets as written: an exact item denotes one identifier, `p*` the identifiers with that prefix (Cond.setDenotes)
   (h) rules disabled through the API: never match, undefined when referenced directly, not matching inside a rule set
+  (i) doubles: promotion placement and opcode family, undefined propagation for every FloatOps, compile-time rejections
 -/
 import YaraModel.Gen.Precedence
 import YaraModel.Lemmas.Cond
@@ -60,27 +62,27 @@ example : vmUn (fun _ _ => 0) .OP_NOT UNDEF = UNDEF := by decide
     undefined all the same because no memory block of a sane address space contains the offset
     `(size_t) YR_UNDEFINED` = 0xFFFABADAFABADAFF (blocks end at or below 2^63) — proved against the range test
     REGENERATED from the `function_read` macro. -/
-theorem undef_propagation_readers (blocks : List (Nat × Bytes)) (op : UnOp) (hr : isReader op = true)
+theorem undef_propagation_readers (fo : FloatOps) (blocks : List (Nat × Bytes)) (op : UnOp) (hr : isReader op = true)
     (hb : ∀ b ∈ blocks, b.1 + b.2.length ≤ 9223372036854775808) :
-    vmUn (prim blocks) op UNDEF = UNDEF := by
+    vmUn (prim fo blocks) op UNDEF = UNDEF := by
   have key : ∀ sz sg be, readPrim blocks sz sg be UNDEF = UNDEF := by
     intro sz sg be
     simp only [readPrim, undef_offset, readBlocks_sentinel blocks sz hb]
   cases op <;> simp [isReader] at hr <;> simp only [vmUn]
-  · rw [prim_reader blocks _ 2 true false _ (by decide), key]
-  · rw [prim_reader blocks _ 2 true true _ (by decide), key]
-  · rw [prim_reader blocks _ 4 true false _ (by decide), key]
-  · rw [prim_reader blocks _ 4 true true _ (by decide), key]
-  · rw [prim_reader blocks _ 1 true false _ (by decide), key]
-  · rw [prim_reader blocks _ 1 true true _ (by decide), key]
-  · rw [prim_reader blocks _ 2 false false _ (by decide), key]
-  · rw [prim_reader blocks _ 2 false true _ (by decide), key]
-  · rw [prim_reader blocks _ 4 false false _ (by decide), key]
-  · rw [prim_reader blocks _ 4 false true _ (by decide), key]
-  · rw [prim_reader blocks _ 1 false false _ (by decide), key]
-  · rw [prim_reader blocks _ 1 false true _ (by decide), key]
+  · rw [prim_reader (fo := fo) blocks _ 2 true false _ (by decide), key]
+  · rw [prim_reader (fo := fo) blocks _ 2 true true _ (by decide), key]
+  · rw [prim_reader (fo := fo) blocks _ 4 true false _ (by decide), key]
+  · rw [prim_reader (fo := fo) blocks _ 4 true true _ (by decide), key]
+  · rw [prim_reader (fo := fo) blocks _ 1 true false _ (by decide), key]
+  · rw [prim_reader (fo := fo) blocks _ 1 true true _ (by decide), key]
+  · rw [prim_reader (fo := fo) blocks _ 2 false false _ (by decide), key]
+  · rw [prim_reader (fo := fo) blocks _ 2 false true _ (by decide), key]
+  · rw [prim_reader (fo := fo) blocks _ 4 false false _ (by decide), key]
+  · rw [prim_reader (fo := fo) blocks _ 4 false true _ (by decide), key]
+  · rw [prim_reader (fo := fo) blocks _ 1 false false _ (by decide), key]
+  · rw [prim_reader (fo := fo) blocks _ 1 false true _ (by decide), key]
 
-example : vmUn (prim [(0, [1, 2, 3, 4])]) .OP_UINT16 1 = 770 ∧ vmUn (prim [(0, [1, 2, 3, 4])]) .OP_UINT16 3 = UNDEF := by decide
+example : vmUn (prim default [(0, [1, 2, 3, 4])]) .OP_UINT16 1 = 770 ∧ vmUn (prim default [(0, [1, 2, 3, 4])]) .OP_UINT16 3 = UNDEF := by decide
 
 /-- The 12 instantiations of `function_read` apply the byte-order conversion their name announces. -/
 theorem reader_table_consistent :
@@ -114,7 +116,7 @@ theorem and_or_undefined (env : Env) (l : LEnv) (a b : Expr) (ha : eval env l a 
     eval env l (.or a b) = .bool (asBool (eval env l b)) ∧ eval env l (.or b a) = .bool (asBool (eval env l b)) := by
   simp [eval, ha, vAnd, vOr, asBool, truthy]
 
-example : eval ⟨[], [], 0, [], [], []⟩ {} (.or (.undefOf .i) .tt) = .bool true := by
+example : eval ⟨[], [], 0, [], [], [], default⟩ {} (.or (.undefOf .i) .tt) = .bool true := by
   simp [eval, vOr, asBool, truthy]
 
 /-- `not undefined` is undefined; `defined` never is. -/
@@ -183,7 +185,7 @@ theorem of_quantifiers (env : Env) (l : LEnv) (qe : Expr) (set : List Nat) :
   · intro p
     simp [eval, pctHolds]
 
-example : eval ⟨[[(0, 2)], []], [], 2, [], [], []⟩ {} (.ofStr .any (.int 0) [0, 1]) = .bool true := by
+example : eval ⟨[[(0, 2)], []], [], 2, [], [], [], default⟩ {} (.ofStr .any (.int 0) [0, 1]) = .bool true := by
   simp [eval, quantOf, quantHolds, strFound]
 
 /-- `for Q i in (a..b) : (body)` over a non-empty range is bounded quantification of the body over a ≤ i ≤ b;
@@ -413,9 +415,9 @@ example : setDenotes ["$a", "$ab", "$a1"] [.exact "$a"] = [0] ∧ setDenotes ["$
 
 /-! ## (h) rules switched off through the API (yr_rule_disable) -/
 
-private theorem evalRulesD_prefix (blocks : List (Nat × Bytes)) (filesize : Int) (ext : List (String × Val)) (dis : List Nat) :
+private theorem evalRulesD_prefix (blocks : List (Nat × Bytes)) (filesize : Int) (ext : List (String × Val)) (dis : List Nat) (fo : FloatOps) :
     ∀ (rs : List Rule) (acc : List Bool) (k : Nat), k < acc.length →
-      (evalRulesD blocks filesize ext dis rs acc).getD k false = acc.getD k false := by
+      (evalRulesD blocks filesize ext dis fo rs acc).getD k false = acc.getD k false := by
   intro rs
   induction rs with
   | nil => intro acc k _; rfl
@@ -426,9 +428,9 @@ private theorem evalRulesD_prefix (blocks : List (Nat × Bytes)) (filesize : Int
     simp only [List.getD_eq_getElem?_getD]
     rw [List.getElem?_append_left hk]
 
-private theorem disabled_rule_never_matches_aux (blocks : List (Nat × Bytes)) (filesize : Int) (ext : List (String × Val)) (dis : List Nat) :
+private theorem disabled_rule_never_matches_aux (blocks : List (Nat × Bytes)) (filesize : Int) (ext : List (String × Val)) (dis : List Nat) (fo : FloatOps) :
     ∀ (rs : List Rule) (acc : List Bool) (k : Nat), dis.contains k = true → acc.length ≤ k →
-      (evalRulesD blocks filesize ext dis rs acc).getD k false = false := by
+      (evalRulesD blocks filesize ext dis fo rs acc).getD k false = false := by
   intro rs
   induction rs with
   | nil =>
@@ -440,19 +442,19 @@ private theorem disabled_rule_never_matches_aux (blocks : List (Nat × Bytes)) (
     simp only [evalRulesD]
     by_cases he : k = acc.length
     · subst he
-      rw [evalRulesD_prefix _ _ _ _ rs _ acc.length (by simp)]
+      rw [evalRulesD_prefix _ _ _ _ _ rs _ acc.length (by simp)]
       have hm : acc.length ∈ dis := by simpa using hd
       simp [hm]
     · exact ih _ k hd (by simp; omega)
 /-- a disabled rule never matches, whatever its condition -/
 theorem disabled_rule_never_matches (blocks : List (Nat × Bytes)) (filesize : Int) (ext : List (String × Val)) (dis : List Nat)
-    (rs : List Rule) (k : Nat) (hd : dis.contains k = true) :
-    (evalRulesD blocks filesize ext dis rs []).getD k false = false :=
-  disabled_rule_never_matches_aux blocks filesize ext dis rs [] k hd (Nat.zero_le _)
+    (fo : FloatOps) (rs : List Rule) (k : Nat) (hd : dis.contains k = true) :
+    (evalRulesD blocks filesize ext dis fo rs []).getD k false = false :=
+  disabled_rule_never_matches_aux blocks filesize ext dis fo rs [] k hd (Nat.zero_le _)
 
 /-- what the other rules see of a disabled rule: a direct reference is undefined (docs/capi.rst); inside a rule set it
     counts as not matching — `all of (r)` is false, `none of (r)` true, `N of (..)` / `P% of (..)` count the others — and
-    with no rule disabled `evalRulesD` is `evalRules` -/
+    with no rule disabled (and the placeholder double operations `evalRules` is defined with) `evalRulesD` is `evalRules` -/
 theorem disabled_rule_semantics (env : Env) (l : LEnv) (k : Nat) (hd : env.disabled.contains k = true) :
     eval env l (.ruleRef k) = .undef ∧ env.ruleMatched k = false ∧
     eval env l (.ofRules .all (.int 0) [k]) = .bool false ∧ eval env l (.ofRules .none (.int 0) [k]) = .bool true ∧
@@ -465,34 +467,86 @@ theorem disabled_rule_semantics (env : Env) (l : LEnv) (k : Nat) (hd : env.disab
   · intro set; simp [List.countP_cons, hm]
 
 theorem evalRulesD_nil_is_evalRules (blocks : List (Nat × Bytes)) (filesize : Int) (ext : List (String × Val)) :
-    ∀ (rs : List Rule) (acc : List Bool), evalRulesD blocks filesize ext [] rs acc = evalRules blocks filesize ext rs acc := by
+    ∀ (rs : List Rule) (acc : List Bool),
+      evalRulesD blocks filesize ext [] FloatOps.trivial rs acc = evalRules blocks filesize ext rs acc := by
   intro rs
   induction rs with
   | nil => intro acc; rfl
   | cons r rs ih => intro acc; simp [evalRulesD, evalRules, ih]
 
+/-! ## (i) doubles: where the compiler promotes, which opcode family it selects, what it rejects -/
+
+/-- yr_parser_reduce_operation: an integer operand next to a double one is promoted in place by OP_INT_TO_DBL — the left
+    operand sits at stack depth 2, the right one at depth 1 — and nothing is inserted when the types agree; the opcode
+    family is INT only for two integers, STR for strings, DBL otherwise -/
+theorem promotion_placement :
+    conv .int .flt = [.intToDbl 2] ∧ conv .flt .int = [.intToDbl 1] ∧ conv .int .int = [] ∧ conv .flt .flt = [] ∧
+    conv .str .str = [] ∧
+    numTy .int .int = .int ∧ numTy .int .flt = .flt ∧ numTy .flt .int = .flt ∧ numTy .flt .flt = .flt ∧ numTy .str .str = .str ∧
+    (∀ op, arithOp .flt op = match op with
+      | .add => .OP_DBL_ADD | .sub => .OP_DBL_SUB | .mul => .OP_DBL_MUL | .div => .OP_DBL_DIV
+      | .mod => .OP_MOD | .band => .OP_BITWISE_AND | .bor => .OP_BITWISE_OR | .bxor => .OP_BITWISE_XOR
+      | .shl => .OP_SHL | .shr => .OP_SHR) := by
+  refine ⟨rfl, rfl, rfl, rfl, rfl, rfl, rfl, rfl, rfl, rfl, ?_⟩
+  intro op; cases op <;> rfl
+
+/-- OP_INT_TO_DBL and the double opcodes propagate undefined, for every `FloatOps`: an undefined operand (in either
+    position, promoted or not) makes `+ - * \`, unary minus and all six comparisons undefined -/
+theorem undef_propagation_doubles (fo : FloatOps) (blocks : List (Nat × Bytes)) (w : Int) :
+    promoteW fo UNDEF = UNDEF ∧
+    vmUn (prim fo blocks) .OP_DBL_MINUS UNDEF = UNDEF ∧
+    (∀ op, isFltOp op = true → vmBin (prim fo blocks) (arithOp .flt op) UNDEF w = UNDEF ∧
+                                vmBin (prim fo blocks) (arithOp .flt op) w UNDEF = UNDEF) ∧
+    (∀ op, vmBin (prim fo blocks) (cmpOp .flt op) UNDEF w = UNDEF ∧ vmBin (prim fo blocks) (cmpOp .flt op) w UNDEF = UNDEF) := by
+  refine ⟨by simp [promoteW, isU, isUndef_UNDEF], by simp [vmUn, isUndef_UNDEF], ?_, ?_⟩
+  · intro op hop
+    cases op <;> simp [isFltOp] at hop <;> simp [arithOp, vmBin, isUndef_UNDEF]
+  · intro op
+    cases op <;> simp [cmpOp, vmBin, isUndef_UNDEF]
+
+/-- where a double is a compile-time "wrong type" error it is outside `WF`: `%`, the bitwise operators and shifts, `~`,
+    offsets (`at`, `in`, `@a[..]`, `!a[..]`, `intN(..)`), `for` bounds, quantifiers and percentages -/
+theorem doubles_rejected (env : Env) (c : Ctx) (l : LEnv) (a b body : Expr) (s : SRef) (q : QKind) (set : List Nat) (k : RdKind)
+    (ha : tyOf c a = .flt) :
+    (∀ op, isFltOp op = false → ¬ WF env c l (.arith op a b) ∧ ¬ WF env c l (.arith op b a)) ∧
+    ¬ WF env c l (.bnot a) ∧ ¬ WF env c l (.foundAt s a) ∧ ¬ WF env c l (.foundIn s a b) ∧ ¬ WF env c l (.foundIn s b a) ∧
+    ¬ WF env c l (.offset s a) ∧ ¬ WF env c l (.length s a) ∧ ¬ WF env c l (.read k a) ∧ ¬ WF env c l (.countIn s a b) ∧
+    ¬ WF env c l (.forRange q b a b body) ∧ ¬ WF env c l (.forRange q b b a body) ∧
+    ¬ WF env c l (.ofStr .num a set) ∧ ¬ WF env c l (.pctStr a set) ∧ ¬ WF env c l (.forEnum q b [a] body) := by
+  refine ⟨?_, ?_, ?_, ?_, ?_, ?_, ?_, ?_, ?_, ?_, ?_, ?_, ?_, ?_⟩
+  · intro op hop
+    constructor <;> (intro h; simp only [WF] at h; simp [ha, hop] at h)
+  all_goals (intro h; simp only [WF, WFList] at h; simp [ha] at h)
+
 /-! ## (d) compile_correct -/
 
-/- **compile_correct** — FULL STATEMENT (long-term goal):
+/- **compile_correct** — what is and what is not covered.
 
-theorem compile_correct (env : Env) (henv : EnvOk env) (cond : Expr) (hwf : WF' env (ctxOfEnv env) {} cond) :
-    ∃ fuel, modelVerdict env cond fuel = some (ruleVerdict env cond)
+   `compile_correct_partial` below covers EVERY construct of the condition language: all operators on integers, strings,
+   booleans and DOUBLES (mixed int / double arithmetic and comparisons with the OP_INT_TO_DBL promotion, unary minus),
+   string queries, the `of` family including `P% of`, `for..in` over ranges and enumerations, `for..of`, arbitrary nesting
+   (up to the 4 loop levels the compiler allows).
 
-   where WF' is WF without its exclusion: floating-point sub-expressions (Lean's `Float` is opaque to proofs, so
-   `toVm`/`vmToFlt` round-trips cannot be established).  Everything else — all operators, string queries, the `of`
-   family including `P% of` (exact integer arithmetic since the repair of finding F44), `for..in` over ranges and
-   enumerations, `for..of`, arbitrary nesting (up to the 4 loop levels the compiler allows) — is covered by
-   `compile_correct_partial` below.  The remaining clauses of WF are not restrictions of the fragment but the exact
-   conditions under which libyara's code is correct: they exclude the situations of findings F14 (an integer equal to
-   the sentinel) and F42 (undefined quantifier).
-   (F45 — a range ending at INT64_MAX wrapped around — is repaired in exec.c: the iterator is marked exhausted instead
-   of stepping past INT64_MAX, and the model's `iterAdvance` does the same.  F43 — loop bodies summed instead of counted — is repaired in exec.c; the model's OP_ITER_CONDITION normalises the
-   body value like the code does, and the raw value a short-circuited `or` leaves on the stack is handled by `WordOK`.) -/
+   Doubles without IEEE: a double is carried as its 64-bit pattern and what `+ - * \ unary- < <= > >= == !=` and
+   `(double) i` do with patterns is a PARAMETER (`Cond.FloatOps`, the field `Env.fops`), the same for the specification
+   `eval` and for the VM model (`primDbl`, OP_INT_TO_DBL); the theorem holds for every environment, hence for every
+   `FloatOps`, and no law is required of the operations.  What it carries is the compiler's logic: which operand gets
+   OP_INT_TO_DBL and at which stack depth, which opcode family (INT / DBL / STR) is chosen from the operand types,
+   undefined propagation through the double opcodes; `%`, the bitwise operators and shifts on a double, doubles as loop
+   bounds, enumeration items, offsets, indices or quantifiers are outside `WF` because the compiler rejects them
+   ("wrong type").  IEEE double operations themselves are parameters (the C compiler's `double` and the specification's
+   are the same primitive); the driver instantiates them with Lean `Float` for the correspondence runs.
 
-/-- **compile_correct** (all constructs except floats): for every environment whose memory blocks lie in
-    the lower half of the address space and every condition satisfying `WF` (well-typed as the compiler types it; no
-    float; none of the situations of findings F14/F42), running the code that `compile` emits — the
-    mirror of grammar.y's actions: typed opcode selection, OP_STR_TO_BOOL, short-circuit jumps with their fix-ups,
+   The clauses of `WF` that remain are not restrictions of the fragment but the exact conditions under which libyara's
+   code is correct: they exclude the situations of findings F14 (an integer — or the 64-bit pattern of a double, or of a
+   promoted integer — equal to the sentinel) and F42 (undefined quantifier); this is why the name keeps `_partial`.
+   (F45, F43, F44, F57, F68 are repaired in /repo and the model follows the repaired code.) -/
+
+/-- **compile_correct** (all constructs, doubles included): for every environment — in particular for every choice
+    `env.fops` of the double operations — whose memory blocks lie in
+    the lower half of the address space and every condition satisfying `WF` (well-typed as the compiler types it;
+    none of the situations of findings F14/F42), running the code that `compile` emits — the
+    mirror of grammar.y's actions: typed opcode selection with OP_INT_TO_DBL promotion, OP_STR_TO_BOOL, short-circuit jumps with their fix-ups,
     end-of-list markers, the loop template with 3 internal + 1 user variable per nesting level and the
     ITER_NEXT / ITER_CONDITION / ITER_END protocol — on the VM model, whose pure opcodes are `Gen.VmOps` as
     REGENERATED from exec.c, terminates and yields exactly the verdict of the specification `eval` on the true match
@@ -517,7 +571,7 @@ theorem compile_correct_partial (env : Env) (henv : EnvOk env) (cond : Expr)
   rw [← tw_truth htw]
 
 /-- non-vacuity (loop-free): a string query, a comparison and a short-circuit `and` -/
-example : let env : Env := ⟨[[(0, 2), (5, 2)]], [(0, [97, 98, 0, 0, 0, 97, 98])], 7, [], [], []⟩
+example : let env : Env := ⟨[[(0, 2), (5, 2)]], [(0, [97, 98, 0, 0, 0, 97, 98])], 7, [], [], [], default⟩
     let cond := Expr.and (.found (.id 0)) (.cmp .lt (.count (.id 0)) (.int 3))
     EnvOk env ∧ WF env (ctxOfEnv env) {} cond ∧ ruleVerdict env cond = true := by
   refine ⟨?_, ?_, ?_⟩
@@ -525,12 +579,12 @@ example : let env : Env := ⟨[[(0, 2), (5, 2)]], [(0, [97, 98, 0, 0, 0, 97, 98]
     simp at hb
     subst hb
     decide
-  · simp [WF, SRefOk, tyOf, UNDEF]
+  · simp [WF, promoOk, SRefOk, tyOf, UNDEF]
   · simp [ruleVerdict, eval, Env.matchesOf, vCmp, cmpInt, vAnd, asBool, truthy]
 
 /-- non-vacuity (nested loops): `for any i in (2..2) : (for all of ($a,$b) : (@[i] == 5 or not $))` on a buffer where
     `$a` matches at 0 and 5 and `$b` does not match -/
-example : let env : Env := ⟨[[(0, 2), (5, 2)], []], [(0, [97, 98, 0, 0, 0, 97, 98])], 7, [], [], []⟩
+example : let env : Env := ⟨[[(0, 2), (5, 2)], []], [(0, [97, 98, 0, 0, 0, 97, 98])], 7, [], [], [], default⟩
     -- for any i in (2..2) : ( for all of ($a, $b) : ( @[i] == 5 or not $ ) )
     let cond := Expr.forRange .any (.int 0) (.int 2) (.int 2)
       (.forOf .all (.int 0) [0, 1] (.or (.cmp .eq (.offset .cur (.var 0)) (.int 5)) (.not (.found .cur))))
@@ -540,14 +594,14 @@ example : let env : Env := ⟨[[(0, 2), (5, 2)], []], [(0, [97, 98, 0, 0, 0, 97,
     simp at hb
     subst hb
     decide
-  · simp [WF, SRefOk, tyOf, UNDEF, INT64_MIN, INT64_MAX, intRange, eval, ctxOfEnv, ValOk, vCmp, vOffset, nth,
+  · simp [WF, promoOk, SRefOk, tyOf, UNDEF, INT64_MIN, INT64_MAX, intRange, eval, ctxOfEnv, ValOk, vCmp, vOffset, nth,
       Env.matchesOf, vOr, vNot, loopHolds, quantOf, quantHolds, cmpInt]
   · simp [ruleVerdict, eval, Env.matchesOf, vCmp, cmpInt, vOr, vNot, asBool, truthy, intRange, loopHolds, quantOf, quantHolds,
       countTrue, vOffset, nth]
 
 /-- non-vacuity (integer-valued loop body, the situation of the repaired finding F43):
     `for all i in (1..1) : (#a)` with three matches of `$a` — the body's value 3 counts once -/
-example : let env : Env := ⟨[[(0, 2), (2, 2), (6, 2)]], [(0, [97, 98, 97, 98, 0, 0, 97, 98])], 8, [], [], []⟩
+example : let env : Env := ⟨[[(0, 2), (2, 2), (6, 2)]], [(0, [97, 98, 97, 98, 0, 0, 97, 98])], 8, [], [], [], default⟩
     let cond := Expr.forRange .all (.int 0) (.int 1) (.int 1) (.count (.id 0))
     EnvOk env ∧ WF env (ctxOfEnv env) {} cond ∧ ruleVerdict env cond = true := by
   refine ⟨?_, ?_, ?_⟩
@@ -555,23 +609,23 @@ example : let env : Env := ⟨[[(0, 2), (2, 2), (6, 2)]], [(0, [97, 98, 97, 98, 
     simp at hb
     subst hb
     decide
-  · simp [WF, SRefOk, tyOf, UNDEF, INT64_MIN, INT64_MAX, intRange, eval, ctxOfEnv]
+  · simp [WF, promoOk, SRefOk, tyOf, UNDEF, INT64_MIN, INT64_MAX, intRange, eval, ctxOfEnv]
   · simp [ruleVerdict, eval, Env.matchesOf, asBool, truthy, intRange, loopHolds, quantOf, quantHolds, countTrue]
 
 /-- non-vacuity (range ending at INT64_MAX, the situation of the repaired finding F45):
     `for all i in (9223372036854775807..9223372036854775807) : (i > 0)` is true -/
-example : let env : Env := ⟨[], [], 0, [], [], []⟩
+example : let env : Env := ⟨[], [], 0, [], [], [], default⟩
     let cond := Expr.forRange .all (.int 0) (.int 9223372036854775807) (.int 9223372036854775807)
       (.cmp .gt (.var 0) (.int 0))
     EnvOk env ∧ WF env (ctxOfEnv env) {} cond ∧ ruleVerdict env cond = true := by
   refine ⟨?_, ?_, ?_⟩
   · intro b hb
     simp at hb
-  · simp [WF, tyOf, UNDEF, INT64_MIN, INT64_MAX, intRange, eval, ctxOfEnv, ValOk]
+  · simp [WF, promoOk, tyOf, UNDEF, INT64_MIN, INT64_MAX, intRange, eval, ctxOfEnv, ValOk]
   · simp [ruleVerdict, eval, asBool, truthy, intRange, loopHolds, quantOf, quantHolds, countTrue, vCmp, cmpInt]
 
 /-- non-vacuity (`P% of`, inside compile_correct since the repair of F44): `50% of ($a, $b)` with only `$a` found -/
-example : let env : Env := ⟨[[(0, 2)], []], [(0, [97, 98])], 2, [], [], []⟩
+example : let env : Env := ⟨[[(0, 2)], []], [(0, [97, 98])], 2, [], [], [], default⟩
     let cond := Expr.pctStr (.int 50) [0, 1]
     EnvOk env ∧ WF env (ctxOfEnv env) {} cond ∧ ruleVerdict env cond = true := by
   refine ⟨?_, ?_, ?_⟩
@@ -579,12 +633,12 @@ example : let env : Env := ⟨[[(0, 2)], []], [(0, [97, 98])], 2, [], [], []⟩
     simp at hb
     subst hb
     decide
-  · simp [WF, tyOf, UNDEF, INT64_MIN, INT64_MAX]
+  · simp [WF, promoOk, tyOf, UNDEF, INT64_MIN, INT64_MAX]
   · simp [ruleVerdict, eval, pctHolds, asBool, truthy, strFound, Env.matchesOf]
 
 /-- non-vacuity (a disabled rule inside a rule set, the situation of the repaired finding F68): rule 0 would match but is
     disabled; `all of (r0)` compiles to `PUSH_U (all); PUSH_U (end marker); PUSH_RULE 0; PUSH 0; OR; OF` and is false, a direct reference is undefined -/
-example : let env : Env := ⟨[], [], 0, [], [true], [0]⟩
+example : let env : Env := ⟨[], [], 0, [], [true], [0], default⟩
     let cond := Expr.ofRules .all (.int 0) [0]
     EnvOk env ∧ WF env (ctxOfEnv env) {} cond ∧ ruleVerdict env cond = false ∧ eval env {} (.ruleRef 0) = .undef ∧
     compile (ctxOfEnv env) cond = [.pushU, .pushU, .pushRule 0, .push 0, .bin .OP_OR, .of_ true] := by
@@ -595,5 +649,36 @@ example : let env : Env := ⟨[], [], 0, [], [true], [0]⟩
   · simp [ruleVerdict, eval, Env.ruleMatched, quantOf, quantHolds, asBool, truthy]
   · simp [eval]
   · simp [compile, quantCode, ruleMember]
+
+/-- **compile_correct_floats**: the same, with the quantification over the double operations made explicit — for EVERY
+    `FloatOps` (no law assumed), conditions over doubles and integers compile to code that computes the specification -/
+theorem compile_correct_floats (fo : FloatOps) (env : Env) (henv : EnvOk env) (cond : Expr)
+    (hwf : WF { env with fops := fo } (ctxOfEnv env) {} cond) :
+    ∃ fuel, modelVerdict { env with fops := fo } cond fuel = some (ruleVerdict { env with fops := fo } cond) :=
+  compile_correct_partial { env with fops := fo } henv cond hwf
+
+/-- a small concrete `FloatOps`: fixed point with 3 binary digits (pattern = 8 * value); `==` is exact equality -/
+def fixed8 : FloatOps :=
+  { ofInt := fun i => 8 * i, add := fun a b => a + b, sub := fun a b => a - b, mul := fun a b => a * b / 8,
+    div := fun a b => if b = 0 then 0 else 8 * a / b, neg := fun a => -a,
+    lt := fun a b => decide (a < b), le := fun a b => decide (a ≤ b), gt := fun a b => decide (a > b), ge := fun a b => decide (a ≥ b),
+    nearZero := fun x => decide (x = 0), farZero := fun x => decide (x ≠ 0) }
+
+/-- non-vacuity (mixed int / double condition, instance `fixed8`): `2 * 1.5 + filesize > 9.5 and -(1 \ 4.0) != 0 - 0.25`
+    on a 7-byte file — 2 is promoted at depth 2 (`2 * 1.5`), filesize at depth 1 (`3.0 + filesize`), the comparison
+    `10.0 > 9.5` needs no promotion; the negated quotient equals `0 - 0.25`, so the second conjunct is false -/
+example : let env : Env := ⟨[], [], 7, [], [], [], fixed8⟩
+    let c1 := Expr.cmp .gt (.arith .add (.arith .mul (.int 2) (.flt 12)) .filesize) (.flt 76)
+    let c2 := Expr.cmp .neq (.neg (.arith .div (.int 1) (.flt 32))) (.arith .sub (.int 0) (.flt 2))
+    EnvOk env ∧ WF env (ctxOfEnv env) {} (.and c1 c2) ∧ ruleVerdict env c1 = true ∧ ruleVerdict env (.and c1 c2) = false ∧
+    compile (ctxOfEnv env) c1 =
+      [.push 2, .push 12, .intToDbl 2, .bin .OP_DBL_MUL, .filesize, .intToDbl 1, .bin .OP_DBL_ADD, .push 76, .bin .OP_DBL_GT] := by
+  refine ⟨?_, ?_, ?_, ?_, ?_⟩
+  · intro b hb
+    simp at hb
+  · simp [WF, promoOk, isFltOp, tyOf, ValOk, UNDEF, eval, vArith, arithFlt, vNeg, fixed8]
+  · simp [ruleVerdict, eval, vArith, arithFlt, vCmp, cmpFlt, asBool, truthy, fixed8]
+  · simp [ruleVerdict, eval, vArith, arithFlt, vNeg, vCmp, cmpFlt, vAnd, asBool, truthy, fixed8]
+  · simp [compile, tyOf, conv, numTy, arithOp, cmpOp, isUndef, UNDEF]
 
 end YaraModel.Cond
